@@ -2,7 +2,7 @@
 
 usage: seedeval.py <seed-id> <source-dir with patch.diff demo.py meta.json> <check> [<check>...]
  1. scratch worktree of /repo HEAD (under /tmp): demo passes; apply patch: suite still 412 green, demo fails
- 2. apply the patch to /repo, run the named checks (quick), undo it straight afterwards
+ 2. run the named checks (quick) from a scratch copy of /verif against that scratch worktree (PYTHONPATH), then remove both
  3. store everything under /verif/seeded/<seed-id>/
 """
 import json
@@ -30,6 +30,7 @@ def main():
     assert rc == 0, out
     result = {"seed": sid, "at": time.strftime("%Y-%m-%d %H:%M:%S"),
               "repo_head": sh("git -C /repo rev-parse --short HEAD")[1].strip()}
+    vcopy = f"/tmp/svv_{sid}"
     try:
         rc0, o0 = sh(f"PYTHONPATH={wt} /venv/bin/python {src}/demo.py", cwd=wt)
         result["demo_without_change_rc"] = rc0
@@ -43,30 +44,37 @@ def main():
             rc1, o1 = sh(f"PYTHONPATH={wt} /venv/bin/python {src}/demo.py", cwd=wt)
             result["demo_with_change_rc"] = rc1
             result["demo_with_change_tail"] = o1.strip()[-300:]
-    finally:
-        sh(f"git -C /repo worktree remove --force {wt}")
-        shutil.rmtree(wt, ignore_errors=True)
-    confirmed = (result.get("patch_applies") and result.get("demo_without_change_rc") == 0
-                 and result.get("demo_with_change_rc", 0) != 0 and "412 passed" in result.get("suite_with_change", "")
-                 and "failed" not in result.get("suite_with_change", ""))
-    result["confirmed"] = bool(confirmed)
-    result["checks"] = {}
-    if confirmed and checks:
-        assert sh("git -C /repo status --porcelain")[1].strip() == "", "repo not clean"
-        rc, out = sh(f"git -C /repo apply {src}/patch.diff")
-        assert rc == 0, out
-        try:
+        confirmed = (result.get("patch_applies") and result.get("demo_without_change_rc") == 0
+                     and result.get("demo_with_change_rc", 0) != 0 and "412 passed" in result.get("suite_with_change", "")
+                     and "failed" not in result.get("suite_with_change", ""))
+        result["confirmed"] = bool(confirmed)
+        result["checks"] = {}
+        if confirmed and checks:
+            # the checks run from a scratch copy of /verif against the scratch worktree that carries the change
+            # (PYTHONPATH puts it in front of /repo), so that /repo and /verif stay untouched and usable meanwhile
+            shutil.rmtree(vcopy, ignore_errors=True)
+            shutil.copytree("/verif", vcopy, ignore=shutil.ignore_patterns(".git", "out", "seeded", "mutation", "__pycache__",
+                                                                           "out_thorough*"))
+            env = {"PYTHONPATH": wt, "PYTHONDONTWRITEBYTECODE": "1"}
+            rc, out = sh("/venv/bin/python -c 'import func_adl; print(func_adl.__file__)'", env=env, cwd="/tmp")
+            assert out.strip().startswith(wt), out
             for c in checks:
                 t0 = time.time()
-                rc, out = sh(f"/verif/bin/check {c} --tier quick", cwd="/verif", timeout=3600)
+                rc, out = sh(f"{vcopy}/bin/check {c} --tier quick", cwd=vcopy, env=env, timeout=3600)
                 viol = [ln for ln in out.splitlines() if ln.startswith("VIOLATION")]
                 summ = [ln for ln in out.splitlines() if ln.startswith("[" + c + "]")]
                 result["checks"][c] = {"exit": rc, "violation_lines": len(viol), "first": viol[:1],
                                        "summary": summ[-1] if summ else out[-300:], "wall_s": round(time.time() - t0)}
-        finally:
-            sh("git -C /repo checkout -- .")
-        # evidence files were rewritten by the run against the changed tree: restore them
-        sh("git -C /verif checkout -- evidence")
+                if viol:
+                    try:
+                        rp = viol[0].split("replay=")[1].strip()
+                        result["checks"][c]["replay_head"] = open(rp).read()[:1500]
+                    except Exception:
+                        pass
+    finally:
+        sh(f"git -C /repo worktree remove --force {wt}")
+        shutil.rmtree(wt, ignore_errors=True)
+        shutil.rmtree(vcopy, ignore_errors=True)
     dst = f"/verif/seeded/{sid}"
     os.makedirs(dst, exist_ok=True)
     for f in ("patch.diff", "demo.py"):
